@@ -1016,6 +1016,8 @@ def _plan_bc(ctx, rng, items):
         if t[0] == "err":
             model = ("err", t[1], [int(x) for x in (t[3:] if t[1] == "unresolved" else t[2:3])])
             ctx.count("bc:err-" + t[1])
+            if isinstance(got, str):
+                return (got, model)
             if not isinstance(got, tuple) or (got[0], got[1], list(got[2])) != model:
                 return (got if isinstance(got, tuple) else "dictionary with keys %s" % [int(k) for k in got], model)
             return None
@@ -1029,7 +1031,7 @@ def _plan_bc(ctx, rng, items):
             ctx.count("bc:levels>=2")
         if lev and max(lev.values()) >= 4:
             ctx.count("bc:levels>=4")
-        if isinstance(got, tuple):
+        if isinstance(got, (tuple, str)):
             return (got, rep[:80])
         if not rows:
             return None if len(got) == 0 and not mdict else ("keys %s" % list(got), "empty")
